@@ -35,16 +35,23 @@ REGIONS = [(f"n={i}", lin({}, Fraction(i))) for i in range(1, TAIL)] + [(f"n=k+{
 
 def check(model: Model, rep: Report, tier: str):
     rep.trust("spec: state preparation 0->I, 1->X180, +->Y90, -->Ym90, +i->Xm90, -i->X90; detector record-offset forms of DESIGN.md C09.P2 (confirmed by the golden tests and one-off simulation)")
-    p1(model, rep, "C09.P1")
-    p2(model, rep)
-    p3(model, rep)
-    p4(model, rep)
+    with rep.isolated():
+        p1(model, rep, "C09.P1")
+    with rep.isolated():
+        p2(model, rep)
+    with rep.isolated():
+        p3(model, rep)
+    with rep.isolated():
+        p4(model, rep)
     from .c17 import y6
     from .common import share_rule
-    share_rule(rep, model, y6, "C09.P5", "descriptions derived from a Surface-17 layout keep exactly the involved gates, recompute parking, map identifiers bijectively and carry the requested "
-               "refocusing option (= C17.Y6): 'with and without qubit refocusing' is honoured for every contiguous sub-chain")
-    p5(model, rep)
-    p6(model, rep)
+    with rep.isolated():
+        share_rule(rep, model, y6, "C09.P5", "descriptions derived from a Surface-17 layout keep exactly the involved gates, recompute parking, map identifiers bijectively and carry the requested "
+                   "refocusing option (= C17.Y6): 'with and without qubit refocusing' is honoured for every contiguous sub-chain")
+    with rep.isolated():
+        p5(model, rep)
+    with rep.isolated():
+        p6(model, rep)
 
 
 def qec_paths(model: Model):
